@@ -352,7 +352,7 @@ def run_random(spec, acc, p):
 
 def run_shard(spec, acc):
   from vlib.client import EngineProc, Watchdog, EngineDied
-  with EngineProc(timeout=60.0) as p:
+  with EngineProc(timeout=240.0) as p:
     try:
       if spec['mode'] == 'random':
         run_random(spec, acc, p)
